@@ -22,7 +22,8 @@ TECHNIQUE = "Coq proof by nested induction on JSON values that the evaluator mod
 LEVEL_TEXT = ("Theorem C01_eval: for every filter-free query and every JSON value whose nesting is within the limit, m_find = Ok (sem q v) "
               "(same nodes, same order, duplicates kept). C01_find_text: the same for every TEXT that compiles to a filter-free query, in whatever lexical spelling - find(text, value) is the RFC nodelist of "
               "the query the typed token grammar derives from the lexer's tokens for that text, and the text is derivable from the RFC 9535 ABNF (C04_sound). C01_every_spelling: conversely every spelling of every "
-              "filter-free query (any token sequence the grammar derives, any text spelling it: blanks, shorthand/brackets, both quote styles, escapes) compiles to that query and find returns its RFC nodelist. "
+              "filter-free query (any token sequence the grammar derives, any text spelling it: blanks, shorthand/brackets, both quote styles, escapes) compiles to that query and find returns its RFC nodelist. C01_abnf_no_filter: from the ABNF itself - for every string the grammar derives that contains no '?' there is a filter-free query q with "
+              "find(string, v) = the RFC nodelist of q on every value within the depth limit, in every environment whose integer range contains the integers the string mentions (Proofs/AbnfInvert.v, AbnfSpell.v). "
               "The model is tied to the code by differential testing on generated (query, value) pairs.")
 LEVEL_NOTE = "Trusted: Coq kernel; Spec/Sem.v as a reading of the RFC; correspondence harness; extraction and driver."
 
